@@ -25,6 +25,7 @@ TRUSTED_COMMON = [
 ]
 
 _classes = None
+_conns = {}
 
 
 def classes():
@@ -99,12 +100,28 @@ def run_history(case):
     from sqlobject.sqlite.sqliteconnection import SQLiteConnection
     from sqlobject import dberrors
     cfg = case['cfg']
-    conn = SQLiteConnection(':memory:', cache=bool(cfg['cache']))
-    conn.cache.kw.update(cullFrequency=cfg['freq'], cullFraction=cfg['frac'])
+    from sqlobject.cache import CacheSet
     cls = classes()
+    # one connection per caching mode and process; every history starts from empty tables, reset id counters and a new cache
+    conn = _conns.get(bool(cfg['cache']))
+    if conn is None:
+        conn = SQLiteConnection(':memory:', cache=bool(cfg['cache']))
+        for c in cls:
+            c._connection = conn
+            c.createTable()
+        _conns[bool(cfg['cache'])] = conn
+    else:
+        raw = conn.getConnection()
+        cur = raw.cursor()
+        for t in TABLES:
+            cur.execute('DELETE FROM %s' % t)
+        cur.execute('DELETE FROM sqlite_sequence')
+        cur.close()
+        conn.releaseConnection(raw)
+    conn.cache = CacheSet(cache=conn.doCache)
+    conn.cache.kw.update(cullFrequency=cfg['freq'], cullFraction=cfg['frac'])
     for c in cls:
         c._connection = conn
-        c.createTable()
     state = {'log': [], 'fault': None, 'count': 0}
     orig = conn._executeRetry
 
@@ -280,17 +297,13 @@ def run_history(case):
                 r = ['exc', EXC.get(name, 'OTHER:' + name)]
                 raised = True
             if raised:
-                gc.collect()
+                gc.collect(0)      # the traceback cycles of the exception just dropped are young objects
             out.append({'out': r, 'log': list(state['log']), 'tables': dump(), 'slots': [view(o) for o in slots],
                         'cached': cached()})
     finally:
         conn._executeRetry = orig
         slots[:] = []
         conn.cache.clear()
-        try:
-            conn.close()
-        except Exception:  # noqa
-            pass
     return out
 
 
